@@ -154,6 +154,16 @@ func condChecksNonNil(info *types.Info, cond ast.Expr, errObj types.Object) (che
 			b, _ := condChecksNonNil(info, c.Y, errObj)
 			return a || b, false
 		}
+		if c.Op == token.LOR {
+			// err != nil || other: the branch is taken at least whenever the error is non-nil, and
+			// the error is nil after it
+			if _, exact := condChecksNonNil(info, c.X, errObj); exact {
+				return true, true
+			}
+			if _, exact := condChecksNonNil(info, c.Y, errObj); exact {
+				return true, true
+			}
+		}
 	}
 	return false, false
 }
